@@ -71,6 +71,13 @@ fn check_fwd(acc: &mut Acc, stratum: &str, base: u64, px: &[[f32; 3]]) {
     acc.worst(&format!("abs_err {stratum}"), worst, || mk(wp));
 }
 
+fn pxs_json(it: &[[f32; 3]]) -> Value {
+    json!(it.iter().map(|p| px3j(*p)).collect::<Vec<_>>())
+}
+fn pxs_from(v: &Value) -> Vec<[f32; 3]> {
+    v.as_array().unwrap().iter().map(px3_from).collect()
+}
+
 pub fn run(tier: Tier) -> Report {
     let mut rep = Report::new("C04");
     let a = axis(4.0, tier.pick(if light() { 56 } else { 200 }, 1500));
@@ -79,6 +86,7 @@ pub fn run(tier: Tier) -> Report {
     let acc = par_chunks_varied(total, 1 << 15, |acc, lo, hi| {
         let px: Vec<[f32; 3]> = (lo..hi).map(|i| [a[(i / (al * al)) as usize], a[((i / al) % al) as usize], a[(i % al) as usize]]).collect();
         check_fwd(acc, "cube[0,4]", lo, &px);
+        crate::img::refine_violations(acc, lo, &px, 1, &|a, it| check_fwd(a, "cube[0,4]", 0, it), &pxs_json);
         if lo == 0 {
             let p = px[px.len() / 2];
             acc.sample(json!({"rgb": px3s(p), "definition_xyb": lrgb_to_xyb([p[0] as f64, p[1] as f64, p[2] as f64]).to_vec()}));
@@ -111,6 +119,7 @@ pub fn run(tier: Tier) -> Report {
         }
         if !px.is_empty() {
             check_fwd(acc, "negative[-1,4]", total + lo, &px);
+            crate::img::refine_violations(acc, total + lo, &px, 1, &|a, it| check_fwd(a, "negative[-1,4]", 0, it), &pxs_json);
         }
     });
     rep.acc.merge(acc);
@@ -130,7 +139,8 @@ pub fn run(tier: Tier) -> Report {
 
 pub fn replay(case: &Value) -> (bool, String) {
     let mut acc = Acc::default();
-    check_fwd(&mut acc, "replay", 0, &[px3_from(&case["rgb"])]);
+    let (items, shape) = crate::img::replay_items(case, vec![px3_from(&case["rgb"])], &pxs_from);
+    crate::img::with_shape(shape, || check_fwd(&mut acc, "replay", 0, &items));
     match acc.viols.values().next() {
         // stratum name is part of the key; recompute generically
         Some(v) => (true, format!("{} :: {}", v.key, v.detail)),
@@ -197,6 +207,7 @@ pub fn run_c05(tier: Tier) -> Report {
     let acc = par_chunks_varied(total, 1 << 15, |acc, lo, hi| {
         let px: Vec<[f32; 3]> = (lo..hi).map(|i| [a[(i / (al * al)) as usize], a[((i / al) % al) as usize], a[(i % al) as usize]]).collect();
         check_rt(acc, lo, &px);
+        crate::img::refine_violations(acc, lo, &px, 1, &|a, it| check_rt(a, 0, it), &pxs_json);
         if lo == 0 {
             acc.sample(json!({"rgb": px3s(px[px.len()/3]), "note": "LinearRgb -> Xyb -> LinearRgb"}));
         }
@@ -210,7 +221,8 @@ pub fn run_c05(tier: Tier) -> Report {
 
 pub fn replay_c05(case: &Value) -> (bool, String) {
     let mut acc = Acc::default();
-    check_rt(&mut acc, 0, &[px3_from(&case["rgb"])]);
+    let (items, shape) = crate::img::replay_items(case, vec![px3_from(&case["rgb"])], &pxs_from);
+    crate::img::with_shape(shape, || check_rt(&mut acc, 0, &items));
     match acc.viols.values().next() {
         Some(v) => (true, format!("{} :: {}", v.key, v.detail)),
         None => (false, "ok".into()),
